@@ -124,7 +124,7 @@ def eval_expect(exp, out):
         return out['solved'] is True and out['exception'] is None
     if k == 'exception':
         e = out['exception']
-        return e is not None and (exp.get('type') is None or e['type'] in exp['type']) and (exp.get('line') is None or e.get('crash_line') == exp['line'])
+        return e is not None and (exp.get('type') is None or e['type'] in exp['type']) and (exp.get('line') is None or e.get('crash_line') == exp['line']) and (exp.get('lines') is None or e.get('crash_line') in exp['lines'])
     if k == 'line_differs':
         # solved value of line differs from an expected decimal by more than tol
         v = out['solution'].get(exp['line'])
